@@ -44,6 +44,7 @@ DivOps == {"div", "rem", "div_rem", "checked_div", "div_floor", "mod_floor", "di
 Fails(e) ==
     CASE e.op \in {"sub", "checked_sub"} /\ IsUTy(e) -> FailsSubU(A(e, 1), A(e, 2))
       [] e.op \in DivOps -> FailsDiv(A(e, 2))
+      [] e.op = "rem_prim" -> FailsDiv(A(e, 2))
       [] e.op \in {"sqrt", "cbrt", "nth_root"} -> FailsRoot(S(e, 1), RootN(e))
       [] e.op \in {"next_multiple_of", "prev_multiple_of"} -> S(e, 2).s = 0
       [] e.op = "dec" /\ IsUTy(e) -> S(e, 1).s = 0
@@ -193,6 +194,9 @@ Rule(e) ==
                                     ELSE e.ret.some /\ e.ret.n = TrailingZeros(S(e, 1).d)
       [] e.op = "trailing_ones"  -> e.ret.n = TrailingOnes(S(e, 1).d)
       [] e.op = "count_ones"     -> e.ret.n = CountOnes(S(e, 1).d)
+      [] e.op = "rem_prim" -> IsTruncDivRem(A(e, 1), A(e, 2), Adopt(e.hint[1]), SCV(e.ret.z[1]))
+      [] e.op = "sum" -> PostIs1(e, FoldLeft(LAMBDA acc, k: ZAdd(acc, S(e, k)), ZZero, [k \in 1..Len(e.src) |-> k]))
+      [] e.op = "product" -> PostIs1(e, FoldLeft(LAMBDA acc, k: ZMul(acc, S(e, k)), ZOne, [k \in 1..Len(e.src) |-> k]))
       [] e.op = "is_multiple_of" ->
             LET a == A(e, 1)  b == A(e, 2)  q == Adopt(e.hint[1])  r == ZSub(a, ZMul(q, b)) IN
             IF b.s = 0 THEN e.ret.b = (a.s = 0)
